@@ -243,9 +243,10 @@ class Ctx:
         ev = {'property_id': self.pid, 'tier': self.tier, 'seed': self.seed, 'level': 'model_checking',
               'coverage': cov, 'assumptions': self.assumptions,
               'wall_s': round(time.time() - self.t0, 1), 'violations': len(self.violations)}
-        os.makedirs(os.path.join(VERIF, 'evidence'), exist_ok=True)
-        with open(os.path.join(VERIF, 'evidence', self.pid + '.json'), 'w') as f:
-            json.dump(ev, f, indent=1, default=str)
+        if not os.environ.get('PYMC_VERIF_NOEVIDENCE'):     # runs against scratch trees (seeded changes) leave the evidence alone
+            os.makedirs(os.path.join(VERIF, 'evidence'), exist_ok=True)
+            with open(os.path.join(VERIF, 'evidence', self.pid + '.json'), 'w') as f:
+                json.dump(ev, f, indent=1, default=str)
         for kid, hits in sorted(self.known_hits.items()):
             print('KNOWN-FINDING: property=%s %s %s (%d events; first: %s)' % (
                 self.pid, kid, self.findings['open'][kid], len(hits), hits[0][:200]), flush=True)
